@@ -7,7 +7,7 @@
 (***************************************************************************)
 EXTENDS Integers, Sequences, FiniteSets, TLC, Json, IOUtils, SequencesExt
 
-CONSTANTS Stride, TStride, Seed
+CONSTANTS Stride, TStride, Seed, Wide
 
 L(p, n) == [p |-> p, n |-> n, xs |-> <<>>, w |-> <<>>]
 And(a, c) == [p |-> "and", n |-> 0, xs |-> <<a, c>>, w |-> <<>>]
@@ -57,6 +57,23 @@ Relab(P, nxt) ==
   ELSE LET r == RelabSeq(P.xs, 1, nxt, <<>>) IN [p |-> [P EXCEPT !.xs = r.xs], nxt |-> r.nxt]
 PT == {Relab(P, 1).p : P \in PT0 \cup OrAnd0 \cup HashPairs0}
 
+\* wide policies, around the resource limits of the output types (520-byte P2SH script, 1650-byte
+\* scriptSig, 3600-byte witness script, 100 witness items, 20-key CHECKMULTISIG): thresholds and
+\* conjunctions of 15..19 keys, alone and as the unlikely branch of a disjunction
+KeySeq(a, n) == [q \in 1..n |-> L("key", a + q - 1)]
+RECURSIVE AndChain(_, _)
+AndChain(a, n) == IF n = 1 THEN L("key", a) ELSE And(L("key", a), AndChain(a + 1, n - 1))
+WidePols(on) ==
+  IF on = 0 THEN {}
+  ELSE UNION {{Thr(k, KeySeq(1, n)) : k \in {1, 2, n - 1, n}} : n \in {15, 16, 17, 19}}
+       \cup UNION {{Or(L("key", 1), Thr(k, KeySeq(2, n)), o[1], o[2]) : k \in {n - 1, n}, o \in {<<3, 1>>, <<1, 1>>, <<9, 1>>, <<1, 9>>}} : n \in {15, 16, 17, 18}}
+       \cup {AndChain(1, n) : n \in {15, 16, 17, 19}}
+       \cup {Or(L("key", 1), AndChain(2, n), o[1], o[2]) : n \in {15, 16, 17}, o \in {<<3, 1>>, <<1, 3>>}}
+WellFormedP(P) == P.p # "thresh" \/ (P.n >= 1 /\ P.n <= Len(P.xs))
+RECURSIVE WellFormedAll(_)
+WellFormedAll(P) == WellFormedP(P) /\ \A q \in 1..Len(P.xs) : WellFormedAll(P.xs[q])
+AllW == SetToSeq({P \in WidePols(Wide) : WellFormedAll(P)})
+
 RECURSIVE KeysOfP(_)
 RECURSIVE KeysOfPS(_, _)
 KeysOfPS(xs, q) == IF q > Len(xs) THEN <<>> ELSE KeysOfP(xs[q]) \o KeysOfPS(xs, q + 1)
@@ -74,6 +91,7 @@ Kept == SelectSeq([q \in 1..Len(All) |-> <<q, All[q]>>], LAMBDA x : x[1] % Strid
 KeptT == SelectSeq([q \in 1..Len(AllT) |-> <<Len(All) + q, AllT[q]>>], LAMBDA x : x[1] % TStride = Seed % TStride)
 Cases == [q \in 1..Len(Kept) |-> [id |-> Kept[q][1], pol |-> Kept[q][2]]]
          \o [q \in 1..Len(KeptT) |-> [id |-> KeptT[q][1], pol |-> KeptT[q][2]]]
+         \o [q \in 1..Len(AllW) |-> [id |-> Len(All) + Len(AllT) + q, pol |-> AllW[q]]]
 
 ASSUME ndJsonSerialize(IOEnv.OUT, Cases)
 ASSUME PrintT("GEN " \o ToJson(<<"policies", Len(Cases), Len(All), Len(AllT)>>))
